@@ -98,9 +98,13 @@ func refRange(size int64, hdr string) []rangeOutcome {
 		}
 		return append(out, rangeOutcome{Status: 206, Start: s, End: size - 1})
 	}
-	// lax numerals: blanks or '+' around numbers — either malformed (200) or
+	// a sign is not part of a byte position (positions are digits only): malformed, the whole object
+	if strings.Contains(hdr, "+") {
+		return []rangeOutcome{full}
+	}
+	// lax numerals: blanks around numbers — either malformed (200) or
 	// the interpretation after stripping them
-	stripped := strings.NewReplacer(" ", "", "\t", "", "+", "").Replace(hdr)
+	stripped := strings.NewReplacer(" ", "", "\t", "").Replace(hdr)
 	if stripped != hdr && (reClosed.MatchString(stripped) || reOpen.MatchString(stripped) || reSuffix.MatchString(stripped)) {
 		out := refRange(size, stripped)
 		for _, o := range out {
@@ -225,7 +229,7 @@ func checkRangeResp(obj []byte, resp *gw.Resp, want []rangeOutcome, isHead bool)
 // plus direct ParseGetObjectRange on the same strings with larger sizes.
 func C13(r *ck.Run) {
 	r.Rule("every Range string of the grammar menu (closed/open/suffix over boundary numbers, multi-range, other units, lax numerals, garbage) × every object size (and a directory object); plus every ordered pair of ranged reads at the backend seam opened first and drained afterwards in both orders; a case is distinct by (size, key, header, method); non-trivial = header present")
-	r.Assume("suffix ranges may be supported (206 last n bytes) or unsupported (200 whole object); numbers that do not fit 63 bits may count as beyond-the-end (416) or malformed (200); blanks and '+' in numerals may be rejected (200) or ignored")
+	r.Assume("suffix ranges may be supported (206 last n bytes) or unsupported (200 whole object); numbers that do not fit 63 bits may count as beyond-the-end (416) or malformed (200); blanks in numerals may be rejected (200) or ignored; a '+' in a numeral makes the range malformed (200)")
 	sizes := []int64{0, 1, 2, 5, 10}
 	if r.Thorough() {
 		sizes = []int64{0, 1, 2, 3, 5, 10, 4096, 4097, 70000}
